@@ -444,6 +444,69 @@ def check_round2(meta, iv, rb1):
             return ("C02:%s:fixedpoint-xattrs" % fmt, "%s: entry %s: xattrs differ after writing the read-back entry again" % (tag, short(un1(x[RB["pathname"]]))))
     return None
 
+PARSE_FORMATS = ("ustar", "newc", "odc")
+
+def view_fields(fmt, v):
+    """the extracted parser's view of one entry, as the getters the real reader must show"""
+    path, link, typ, mode, uid, gid, size, mtime, uname, gname, rmaj, rmin, dmaj, dmin, ino, nlink, body = v
+    if fmt == "ustar":
+        ft = {48: REG, 50: LNK, 51: CHR, 52: BLK, 53: DIR, 54: FIFO}.get(typ, REG)
+        d = dict(pathname=path, hardlink=link if typ == 49 else None, symlink=link if typ == 50 else None, perm=mode & 0o7777,
+                 uid=max(uid, 0), gid=max(gid, 0), size=size if typ == 48 else 0, mtime=[mtime, 0], uname=uname or None, gname=gname or None,
+                 rdev=mkdev(rmaj, rmin) if typ in (51, 52) else 0, body=body)
+        if typ != 49:
+            d["filetype"] = ft
+        return d
+    d = dict(pathname=path, symlink=link if typ == LNK else None, filetype=typ, perm=mode & 0o7777, uid=uid, gid=gid, size=size,
+             mtime=[mtime, 0], ino=ino, nlink=max(1, nlink), body=body)
+    if fmt == "newc":
+        d["rdev"], d["dev"] = mkdev(rmaj, rmin), mkdev(dmaj, dmin)
+    else:
+        d["rdev"], d["dev"] = rmaj, dmaj
+    return d
+
+def parse_correspondence(rep, runner, todo, stats):
+    """model parser on the bytes the REAL writer produced vs what the REAL reader returned for them"""
+    if not todo:
+        return
+    lines = [vfmt([1, 0, fmt.encode(), b"", b"", 0, -1, data, 0, -1, 0]) for fmt, data, rd, line in todo]
+    path = vlib.write_cases(lines, "fmt-parse.cases")
+    rc, ml, err = vlib.run_exe(runner, path, timeout=900)
+    if rc != 0 or len(ml) != len(lines):
+        rep.violation("corr:fmt-parse:model-runner", "model runner failed (rc=%s, %d/%d lines): %s" % (rc, len(ml), len(lines), err[-300:]),
+                      dict(correspondence="fmt-parse", stage="model"), found_input=False)
+        return
+    first = None
+    for (fmt, data, rd, line), m in zip(todo, ml):
+        mv = fparse(m)
+        ok = bool(mv) and len(mv[0]) == len(rd[2])
+        why = "the model parser rejects the archive or finds %s entries, the reader %d" % (len(mv[0]) if mv else "no", len(rd[2]))
+        if ok:
+            for v, rb in zip(mv[0], rd[2]):
+                want = view_fields(fmt, v)
+                got = rb_fields(rb, fmt)
+                got["pathname"] = un1(rb[RB["pathname"]])
+                got["body"] = rb[RB["body"]]
+                for k2 in ("symlink", "hardlink", "uname", "gname"):
+                    if got[k2] == b"":
+                        got[k2] = None
+                bad = [k2 for k2, x in want.items() if got.get(k2) != x]
+                if bad:
+                    ok, why = False, "entry %s: %s is %s for the model parser, %s for the reader" % (
+                        short(want["pathname"]), bad[0], short(want[bad[0]]), short(got.get(bad[0])))
+                    break
+        if ok:
+            stats["parse_agree"] += 1
+        else:
+            stats["parse_disagree"] += 1
+            if first is None:
+                first = (fmt, why, line)
+    if first:
+        rep.violation("corr:fmt-parse", "header parser model and real reader disagree on %d archives (first: %s: %s)" %
+                      (stats["parse_disagree"], first[0], first[1]),
+                      dict(correspondence="fmt-parse", broken="correspondence fmt-parse (model parser vs real reader)", case=first[2]),
+                      found_input=False)
+
 def run_round(rep, exe, cases, tagname):
     lines = [c[0] for c in cases]
     metas = [dict(fmt=c[1]["fmt"], field="sequence", desc="%s/%s" % (c[1]["opts"], c[1]["flt"])) for c in cases]
@@ -455,7 +518,8 @@ def run(rep):
     runner = vlib.build_runner("fmt")
     exe = vlib.compile_harness("fmt", "asan")
     cases = [(l, meta_from_line(l)) for l in vlib.load_corpus("C02")] + gen_cases(rep)
-    stats = dict(evaluations=0, agree=0, disagree=0, keys={}, round2=0)
+    stats = dict(evaluations=0, agree=0, disagree=0, keys={}, round2=0, parse_agree=0, parse_disagree=0)
+    parse_todo = []
     il = run_round(rep, exe, cases, "fmt-rt1")
     # model on the plain byte-level subset
     midx = [k for k, c in enumerate(cases) if c[1]["model"]]
@@ -487,6 +551,8 @@ def run(rep):
             ents2 = [rb_to_ent(e, spec) for e in rb1]
             line2 = vfmt([0, meta["loc"], meta["fmt"].encode(), meta["opts"].encode(), b"", 0, -1, ents2, 0, -1, 0])
             round2.append((line2, dict(meta, round=2, rb1=rb1, line1=line)))
+        if k in model_of and not hit and meta["fmt"] in PARSE_FORMATS and iv[0][3] == len(iv[1]):
+            parse_todo.append((meta["fmt"], iv[1], iv[2], line))
         if k in model_of:
             try:
                 mv = fparse(model_of[k])
@@ -504,6 +570,7 @@ def run(rep):
                       (stats["disagree"], k, meta["fmt"], "status/lengths" if pi[:3] != mv[:3] else "output bytes"),
                       dict(correspondence="fmt", broken="correspondence fmt (whole archives)", case=line, impl=str(pi[:3]), model=str(mv[:3])),
                       found_input=False)
+    parse_correspondence(rep, runner, parse_todo, stats)
     if round2:
         il2 = run_round(rep, exe, round2, "fmt-rt2")
         for k, (line2, meta) in enumerate(round2):
@@ -526,8 +593,9 @@ def run(rep):
              "sizes, each written by the real writer, read by the real reader through auto-detection, and written+read once more (fixed "
              "point); non-trivial = at least two entries or a name longer than 100 bytes" % len(FORMATS),
         samples=[cases[0][0][:300], cases[len(cases) // 2][0][:300]],
-        traces_validated_against_impl=stats["agree"],
-        correspondence=dict(whole_archive=dict(agree=stats["agree"], disagree=stats["disagree"])),
+        traces_validated_against_impl=stats["agree"] + stats["parse_agree"],
+        correspondence=dict(whole_archive=dict(agree=stats["agree"], disagree=stats["disagree"]),
+                            parser=dict(agree=stats["parse_agree"], disagree=stats["parse_disagree"])),
         fixed_point_rounds=stats["round2"], oracle_keys=sorted(stats["keys"].keys()))
     rep.assumptions += [
         "representable ranges per format are the table FORMATS in props/C02.py (read off the writers and the C10 results); values outside are C10's subject",
